@@ -97,14 +97,17 @@ def run04(ck):
 
 
 def run05(ck):
+    from xknx.cemi import CEMIFrame, CEMILData, CEMIMessageCode
     from xknx.exceptions import ConversionError
+    from xknx.telegram import IndividualAddress
     from xknx.telegram.apci import APCI
+    from xknx.telegram.tpci import TDataConnected
 
     rnd = random.Random(ck.seed)
     old = signal.signal(signal.SIGALRM, _alarm)
     cases = []
     try:
-        for raw in apdus(ck, rnd):
+        for k, raw in enumerate(apdus(ck, rnd)):
             out, o = decode(raw)
             if o is None:
                 continue
@@ -116,6 +119,16 @@ def run05(ck):
                 c["diff"] = [[i, b] for i in range(min(len(enc), len(raw))) for b in range(8) if (enc[i] ^ (raw[i] if i else raw[0] & 3)) >> b & 1]
                 o2 = APCI.from_knx(enc)
                 c["eq"] = 1 if o2 == o else 0
+                # relaying: the object is serialised inside a numbered point-to-point cEMI frame; its own encoding must not change by that
+                if len(enc) <= 254 and k % 3 == 0:
+                    try:
+                        CEMIFrame(code=CEMIMessageCode.L_DATA_IND, data=CEMILData(src_addr=IndividualAddress(0x1101), dst_addr=IndividualAddress(0x1102),
+                                                                                 tpci=TDataConnected(sequence_number=11), payload=o)).to_knx()
+                    except ConversionError:
+                        pass
+                    if bytes(o.to_knx()) != enc:
+                        c["eq"] = 0
+                        c["note"] = "encoding changed after the object was serialised in a cEMI frame"
             except (ConversionError, NotImplementedError):
                 c["out"] = "refused"
             except Exception as ex:  # noqa: BLE001
@@ -123,12 +136,14 @@ def run05(ck):
             cases.append(c)
     finally:
         signal.signal(signal.SIGALRM, old)
-    send = [{k: v for k, v in c.items() if k != "hex"} for c in cases]
+    send = [{k: v for k, v in c.items() if k not in ("hex", "note")} for c in cases]
     res = tlc.batch(ck, "codec/Apci_Judge", send, min_per_shard=6000)
     seen = set()
     for idx in sorted(res.bad):
         c = cases[idx]
         key = {"svc": c["svc"], "out": c["out"], "lendiff": c["lendiff"], "calcdiff": c["calcdiff"], "eq": c["eq"], "diff": c["diff"][:3]}
+        if c.get("note"):
+            key["note"] = c["note"]
         if str(key) in seen or len(seen) > 50:
             continue
         seen.add(str(key))
@@ -192,7 +207,7 @@ def run06(ck):
         if "ReturnCode" in a:
             from xknx.telegram.apci import ReturnCode  # noqa: PLC0415
             return list(ReturnCode)
-        return (INTS if ck.tier == "quick" else sorted(set(INTS) | set(range(-2, 4100)) | {2**k + d for k in range(12, 33) for d in (-1, 0, 1)})) + ([None] if "None" in a else [])
+        return (sorted(set(INTS) | set(range(0, 72))) if ck.tier == "quick" else sorted(set(INTS) | set(range(-2, 4100)) | {2**k + d for k in range(12, 33) for d in (-1, 0, 1)})) + ([None] if "None" in a else [])
 
     for cls in classes:
         sig = inspect.signature(cls.__init__)
@@ -202,6 +217,11 @@ def run06(ck):
         for n, p in params:
             for v in variants(n, p.annotation):
                 plans.append(dict(base, **{n: v}))
+        bools = [n for n, p in params if "bool" in str(p.annotation)]
+        if len(bools) >= 2:                                        # every combination of the flags
+            import itertools  # noqa: PLC0415
+            for combo in itertools.product((False, True), repeat=len(bools)):
+                plans.append(dict(base, **dict(zip(bools, combo))))
         for _ in range(20 if ck.tier == "quick" else 300):        # two arguments varied together
             if len(params) >= 2:
                 (n1, p1), (n2, p2) = rnd.sample(params, 2)
